@@ -41,3 +41,15 @@ def dtcwt(ev, f, buf, pend=None):
     elif ev == "DTCWTInverse.crop":
         buf.append({"ev": "crop", "level": int(f["level"]), "rows": int(f["rows"]), "cols": int(f["cols"]), "hp_rows": int(f["hp_rows"]),
                     "hp_cols": int(f["hp_cols"]), "crop_rows": bool(f["crop_rows"]), "crop_cols": bool(f["crop_cols"])})
+
+
+def swt(ev, f, buf, pend=None):
+    if ev == "SWTForward.level":
+        buf.append({"ev": "level", "level": int(f["level"]), "dilation": int(f["dilation"]), "mode": str(f["mode"])})
+    elif ev == "afb1d_atrous":
+        pad = [int(p) for p in f["pad"]]
+        d = int(f["dim"])
+        a, b = (pad[2], pad[3]) if d == 2 else (pad[0], pad[1])
+        other = (pad[0], pad[1]) if d == 2 else (pad[2], pad[3])
+        buf.append({"ev": "atrous", "dim": d, "N": int(f["N"]), "L": int(f["L"]), "dilation": int(f["dilation"]), "a": a, "b": b,
+                    "mode": str(f["mode"]), "other_axis_pad": int(other[0]) + int(other[1])})
